@@ -62,6 +62,14 @@ def _check_no_nones_in_list(lst: List, name: str):
             raise RuntimeError(f"{name} contains None value")
 
 
+def _check_no_links_with_parents(task: 'Task', new_parent: 'Task'):
+    parents = [new_parent] + [p for p in new_parent.all_parents]
+    for t in [task] + [ch for ch in task.all_children]:
+        for linked in [p for p in t.predecessors] + [sc for sc in t.successors]:
+            if linked in parents:
+                raise RuntimeError(f"Task {t.id} is linked with task {linked.id}. Can't make linked task a parent")
+
+
 def _unique_tasks(tasks):
     m = set()
     res = []
@@ -722,9 +730,12 @@ class Task:
                 raise RuntimeError("Parent must be from same WBS")
 
         if parent is not None:
+            if parent is self:
+                raise RuntimeError(f"Can't make task {self.id} a parent of itself")
             if parent in self.all_children:
                 raise RuntimeError(f"Task {parent.id} is a child of task {self.id}. Can't make child "
                                    f"a parent of its parent")
+            _check_no_links_with_parents(self, parent)
 
         if self.__parent is not None and self in self.__parent.__children:
             self.__parent.__children.remove(self)
@@ -786,8 +797,9 @@ class Task:
                 raise RuntimeError(f"Id intersection detected")
 
         for ch in value:
-            if self in ch.all_children:
+            if ch is self or self in ch.all_children:
                 raise RuntimeError(f"Task {self.id} is a child of {ch.id}. Can't make child a parent of its parent")
+            _check_no_links_with_parents(ch, self)
 
         for v in self.__children:
             v.__parent = None
